@@ -54,7 +54,7 @@ class Path:
         t0 = time.time()
         if heavy:
             s = z3.Solver()
-            s.set("timeout", int(self.heavy_timeout * 1000))
+            s.set("timeout", int(self.claim_timeout * 1000))
             s.add(*self.pc)
             s.add(*extra)
             r = s.check()
@@ -73,7 +73,8 @@ class Path:
         self.queries += 1
         return r
 
-    heavy_timeout = int(os.environ.get("MIRSYM_HEAVY", "300"))
+    heavy_timeout = int(os.environ.get("MIRSYM_HEAVY", "300"))      # fallback for branch-feasibility queries
+    claim_timeout = int(os.environ.get("MIRSYM_CLAIM", "600"))      # one-shot claim queries
 
     def decide(self, cond):
         """Branch on a Bool term; returns the python bool taken on this path."""
